@@ -19,7 +19,7 @@ PROPERTY = "C14"
 LEVEL = "model_checking"
 ASSUMPTIONS = ["one consumer per stream; argument-coercion failures while creating the source are out of scope (DC9)",
                "a subscription whose only root field is skipped at run time is outside the statement (observed: subscribe raises IndexError)"]
-BUDGET_S = {"quick": 120, "thorough": 3600}
+BUDGET_S = {"quick": 600, "thorough": 3600}
 MAXLEN = {"quick": 3, "thorough": 4}
 MAX_I = {"quick": 1, "thorough": 1}
 
